@@ -46,3 +46,13 @@ PROPS["C11"] = dict(
         J("c11_embedded_verbatim_short", bound="carried byte string of length 0..34", encodes=["Address::deserialize", "from_bytes_impl_unsafe"], unwind_fn=HL, timeout_s=1800, mem_gb=16),
     ],
 )
+
+PROPS["C15"] = dict(
+    bounds="linear fee, ex-unit cost: every argument over its full machine range (price denominators > 0); "
+           "reference-script fee: tier count n concrete 0..8 (quick) / 0..48 (thorough), remainder and price symbolic",
+    assumptions=["num-bigint's BigInt is modelled as a mathematical integer (add, sub, mul, pow, div_floor, div_ceil, sign, to_u64_digits)",
+                 "price denominators are positive (CDDL positive_int); a zero denominator is outside the ledger's definition",
+                 "error payloads (JsError text) are opaque"],
+    e1=[],
+    e2=["c15"],
+)
